@@ -110,8 +110,9 @@ type Fresh struct {
 	privM map[privKey]bool
 	privB map[privKey]bool
 	// objM/objB: memo and in-progress set of private
-	objM map[privKey]bool
-	objB map[privKey]bool
+	objM  map[privKey]bool
+	objB  map[privKey]bool
+	owned map[*types.Var]int // fields whose content is private to the computation wherever it is stored (ownedField, rules_ag29.go)
 }
 
 func newFresh(c *Ctx) *Fresh {
@@ -185,6 +186,9 @@ func (f *Fresh) level1(v ssa.Value) int {
 		if f.level(agg) == deep {
 			return deep
 		}
+		if fx, ok := x.(*ssa.Field); ok {
+			return f.ownedField(fieldOf(fx.X.Type(), fx.Field))
+		}
 		return notFresh
 	case *ssa.Lookup:
 		if f.level(x.X) == deep {
@@ -256,6 +260,10 @@ func (f *Fresh) level1(v ssa.Value) int {
 			}
 			if f.level(x.X) == deep {
 				return deep
+			}
+			// a field that only ever receives objects created for the computation that owns the struct
+			if fa, ok := x.X.(*ssa.FieldAddr); ok {
+				return f.ownedField(fieldOf(fa.X.Type(), fa.Field))
 			}
 			return notFresh
 		}
@@ -659,6 +667,15 @@ func (f *Fresh) writes(fn *ssa.Function) []writeEv {
 								p := path(sl.X)
 								p.Steps = append(p.Steps, step{Deref: true}, step{Elem: true})
 								out = append(out, writeEv{Fn: fn, Ins: i, Kind: "append-reslice", Target: p, Fresh: f.freshBasedRef(sl.X)})
+							} else if ok && sl.Low != nil && sl.Max == nil {
+								// append(x[a:], …): the tail still ends where x ends, so the append writes into x's spare
+								// capacity — memory behind the end of somebody else's slice (an operand list carved out of a
+								// larger array sees its neighbour overwritten)
+								for _, root := range sliceRoots(sl.X) {
+									p := path(root)
+									p.Steps = append(p.Steps, step{Deref: true}, step{Elem: true})
+									out = append(out, writeEv{Fn: fn, Ins: i, Kind: "append-reslice", Target: p, Fresh: f.freshBasedRef(root)})
+								}
 							}
 						}
 					}
@@ -771,6 +788,38 @@ func fieldCellValues(base ssa.Value, idx int) ([]ssa.Value, bool) {
 }
 
 // appendOrigins: the values an append base may stem from, looking through phis and earlier appends.
+// sliceRoots: the slice values a (loop-carried) slice variable was derived from by re-slicing and appending: what the
+// worklist `for p := xs; len(p) > 0; { p = p[1:]; p = append(p, more...) }` started from.
+func sliceRoots(v ssa.Value) []ssa.Value {
+	var out []ssa.Value
+	seen := map[ssa.Value]bool{}
+	var visit func(v ssa.Value)
+	visit = func(v ssa.Value) {
+		if seen[v] {
+			return
+		}
+		seen[v] = true
+		switch x := v.(type) {
+		case *ssa.Phi:
+			for _, e := range x.Edges {
+				visit(e)
+			}
+		case *ssa.Slice:
+			visit(x.X)
+		case *ssa.Call:
+			if b, ok := x.Call.Value.(*ssa.Builtin); ok && b.Name() == "append" {
+				visit(x.Call.Args[0])
+				return
+			}
+			out = append(out, v)
+		default:
+			out = append(out, v)
+		}
+	}
+	visit(v)
+	return out
+}
+
 func appendOrigins(v ssa.Value) []ssa.Value {
 	var out []ssa.Value
 	seen := map[ssa.Value]bool{}
